@@ -149,6 +149,7 @@ func (e *emitter) Emit(st scheduler.State) {
 }
 
 type result struct {
+	lock     *sync.Mutex // guards the per-job records while job bodies may still be running
 	sc               *scenario
 	trace            []string
 	starts           [][]int64 // per job: start stamps
@@ -192,6 +193,7 @@ func runScenario(sc *scenario) *result {
 		cancelBeg int64
 	)
 	rec := &scheduler.VerifRecorder{Perturb: sc.Perturb, Seed: sc.Seed}
+	res.lock = &mu
 	ctx, cancelFn := context.WithCancel(context.Background())
 	defer cancelFn()
 	doCancel := func() {
@@ -445,6 +447,11 @@ func classOf(err error) string {
 }
 
 func check(r *result) verdicts {
+	if r.lock != nil {
+		// a body that outlives an early return of Wait may still be recording
+		r.lock.Lock()
+		defer r.lock.Unlock()
+	}
 	v := verdicts{}
 	sc := r.sc
 	n := len(sc.Deps)
